@@ -58,8 +58,14 @@ Definition factor_of (u : unit) : option f64 :=
   end.
 
 (* Unit::scale_to *)
+Definition percent_fr_pair (a b : unit) : bool :=
+  match a, b with
+  | UK x, UK y => (String.eqb x "Percent" && String.eqb y "Fr") || (String.eqb x "Fr" && String.eqb y "Percent")
+  | _, _ => false
+  end.
 Definition unit_scale_to (a b : unit) : option f64 :=
   if unit_eqb a b then Some f_one
+  else if percent_fr_pair a b then None      (* both "dimensionless", no ratio between them *)
   else if dim_eqb (dimension_of a) (dimension_of b) then
     match factor_of a, factor_of b with
     | Some x, Some y => Some (fdiv x y)
